@@ -80,7 +80,10 @@ pub fn ind_constant_dispatch() {
 /// C10 / C09 (X part): an accepted instance processes a stream of valid symbolic candles without
 /// panicking; a second, identically built instance produces syntactically identical results
 /// (no hidden state); the result shape matches size()
-fn ind_stream<C: IndicatorConfig + Default + Clone>() {
+fn ind_stream<C: IndicatorConfig + Default + Clone>()
+where
+	C::Instance: Clone,
+{
 	let t = rsx::param("t") as usize;
 	let c0 = valid_candle_i(1000);
 	let cfg = C::default();
@@ -101,6 +104,19 @@ fn ind_stream<C: IndicatorConfig + Default + Clone>() {
 		}
 		for q in 0..ra.signals().len() {
 			rsx::check("ind.determinism.signal", ra.signals()[q] == rb.signals()[q]);
+		}
+		if i + 2 == t {
+			// a clone taken now continues identically
+			let mut cl = a.clone();
+			let cn = valid_candle_i(i + 1);
+			let r1 = cl.next(&cn);
+			let r2 = b.clone().next(&cn);
+			for q in 0..r1.values().len() {
+				rsx::check("ind.clone.value", rsx::bits_eq(r1.values()[q], r2.values()[q]));
+			}
+			for q in 0..r1.signals().len() {
+				rsx::check("ind.clone.signal", r1.signals()[q] == r2.signals()[q]);
+			}
 		}
 	}
 }
